@@ -28,11 +28,13 @@ type provCtx struct {
 	calls map[string]bool
 	// signCasts: render same-width conversions that change signedness (the value can change)
 	signCasts bool
+	// seqOffset: reads performed by the caller before the inlined helper was called
+	seqOffset int
 	seen      map[ssa.Value]bool
 }
 
 func (c *provCtx) child(env map[*ssa.Parameter]string) *provCtx {
-	return &provCtx{p: c.p, env: env, depth: c.depth + 1, leaf: c.leaf, noInline: c.noInline, calls: c.calls, signCasts: c.signCasts, seen: map[ssa.Value]bool{}}
+	return &provCtx{p: c.p, env: env, depth: c.depth + 1, leaf: c.leaf, noInline: c.noInline, calls: c.calls, signCasts: c.signCasts, seqOffset: c.seqOffset, seen: map[ssa.Value]bool{}}
 }
 
 func alts(ss []string) string {
@@ -454,7 +456,7 @@ func (c *provCtx) call(call *ssa.Call, idx int) string {
 	if fn.Pkg != nil && shortPkg(fn.Pkg.Pkg) == "primitive" && isModulePkg(fn.Pkg.Pkg) && strings.HasPrefix(fn.Name(), "Read") && len(cc.Args) == 1 {
 		// sequence number among the reads of the same reader, counted from the enclosing loop
 		// header (or the entry) along the acyclic paths; all paths must agree
-		k := readSeq(call, fn.Pkg)
+		k := readSeq(call, fn.Pkg) + c.seqOffset
 		s := fmt.Sprintf("%s@%d(%s)", strings.ToLower(strings.TrimPrefix(fn.Name(), "Read")), k, arg(0))
 		if idx > 0 {
 			s += fmt.Sprintf("#%d", idx)
@@ -473,6 +475,10 @@ func (c *provCtx) call(call *ssa.Call, idx int) string {
 			}
 		}
 		cc2 := c.child(env)
+		if primPkg := primitivePkgOf(c.p); primPkg != nil && helperReads(fn, primPkg) {
+			// the helper reads from a reader: its reads come after those the caller did before
+			cc2.seqOffset = c.seqOffset + readSeq(call, primPkg) - 1
+		}
 		var as []string
 		for _, b := range fn.Blocks {
 			if ret, ok := b.Instrs[len(b.Instrs)-1].(*ssa.Return); ok && idx < len(ret.Results) {
@@ -805,7 +811,46 @@ func isPrimRead(ins ssa.Instruction, pkg *ssa.Package) bool {
 		return false
 	}
 	f := staticCallee(&c.Call)
-	return f != nil && f.Pkg == pkg && strings.HasPrefix(f.Name(), "Read")
+	if f == nil {
+		return false
+	}
+	if f.Pkg == pkg && strings.HasPrefix(f.Name(), "Read") {
+		return true
+	}
+	// a helper of the module that performs one primitive read per call counts as one read
+	return f.Pkg != nil && shortPkg(f.Pkg.Pkg) == "datacodec" && f.Blocks != nil && f.Signature.Recv() == nil && helperReads(f, pkg)
+}
+
+var helperReadsMemo = map[*ssa.Function]bool{}
+
+// helperReads: f (not a container reader itself) calls primitive.Read* directly on a parameter.
+func helperReads(f *ssa.Function, pkg *ssa.Package) bool {
+	if v, ok := helperReadsMemo[f]; ok {
+		return v
+	}
+	res := false
+	if !strings.HasPrefix(f.Name(), "readCollectionSize") {
+		for _, b := range f.Blocks {
+			for _, ins := range b.Instrs {
+				if c, ok := ins.(*ssa.Call); ok {
+					if g := staticCallee(&c.Call); g != nil && g.Pkg == pkg && strings.HasPrefix(g.Name(), "Read") && strings.HasSuffix(g.Name(), "Bytes") {
+						res = true
+					}
+				}
+			}
+		}
+	}
+	helperReadsMemo[f] = res
+	return res
+}
+
+func primitivePkgOf(p *Program) *ssa.Package {
+	for _, pk := range p.SSA().AllPackages() {
+		if pk.Pkg != nil && isModulePkg(pk.Pkg) && shortPkg(pk.Pkg) == "primitive" {
+			return pk
+		}
+	}
+	return nil
 }
 
 // readSeq: 1 + the number of primitive.Read* calls executed before call since the innermost loop
